@@ -80,6 +80,9 @@ class Line(_Geom):
         """Returns, for each of the given points, whether it lies on the segment."""
         vect = np.reshape(AsCoords(coord), (-1, 3)) - self.pt1.coord
         unitVector = self.unitVector
+        # the tolerance is relative to the size of the segment: the round-off of a point
+        # computed on a long line grows with its coordinates
+        tol = tol * max(1.0, self.length, np.abs(self.pt1.coord).max())
 
         # distance to the infinite line, then abscissa clamped to the segment
         gap = np.linalg.norm(np.cross(vect, unitVector), axis=1)
